@@ -968,7 +968,7 @@ def parse_for(fields, text, index, *cwd):
     if len(elements) > 2 and fsep is not None:
         elements[-2] = fsep
     if fields['mode']['html']:
-        return end, html.escape(''.join(elements))
+        return end, html.escape(''.join(elements), False)
     return end, ''.join(elements)
 
 def parse_foreach(writer, text, index, *cwd):
@@ -1042,7 +1042,7 @@ def parse_foreach(writer, text, index, *cwd):
     else:
         retval = fsep.join((sep.join([s.replace(var, v) for v in values[:-1]]), s.replace(var, values[-1])))
     if entry_holder.fields['mode']['html']:
-        return end, html.escape(retval)
+        return end, html.escape(retval, False)
     return end, retval
 
 def parse_format(fields, text, index, *cwd):
